@@ -8,7 +8,9 @@ import (
 	"encoding/json"
 	"fmt"
 	"os"
+	"runtime"
 	"sort"
+	"strings"
 	"sync"
 	"sync/atomic"
 	"time"
@@ -21,7 +23,7 @@ import (
 )
 
 type input struct {
-	Kind    string     `json:"kind"` // key | bucket | split | splitseq | dispatch | tagged
+	Kind    string     `json:"kind"` // key | bucket | split | splitseq | dispatch | tagged | conc
 	Src     string     `json:"src,omitempty"`
 	Tags    []string   `json:"tags,omitempty"`
 	Name    []int      `json:"name,omitempty"`
@@ -47,6 +49,12 @@ type input struct {
 	// the results of earlier rounds referenced and re-reads them at the end.
 	Ns   []int `json:"ns,omitempty"`
 	Hold bool  `json:"hold,omitempty"`
+	// conc: G goroutines (datapoint j belongs to goroutine j % G) each call Split(N) on their own
+	// batch Reps times at the same time; with Disp they then also call DispatchMetricMap on one
+	// shared handler Reps/4 times each
+	G    int  `json:"g,omitempty"`
+	Reps int  `json:"reps,omitempty"`
+	Disp bool `json:"disp,omitempty"`
 	// tagged: a real TagHandler (static tags, optional drop-tag / drop-host filter) in front of
 	// the BackendHandler; batches as for dispatch
 	Static   []string `json:"static,omitempty"`
@@ -69,6 +77,47 @@ func seriesOf(mm *gostatsd.MetricMap, f func(n, k string)) {
 	mm.Timers.Each(func(n, k string, _ gostatsd.Timer) { f(n, k) })
 	mm.Sets.Each(func(n, k string, _ gostatsd.Set) { f(n, k) })
 }
+
+// fingerprint lists, per shard, which series (type, name, key) it holds: cheap enough to take
+// after every one of the repeated concurrent calls.
+func fingerprintOne(mm *gostatsd.MetricMap) string {
+	var l []string
+	mm.Counters.Each(func(n, k string, _ gostatsd.Counter) { l = append(l, "c"+n+"\x00"+k) })
+	mm.Gauges.Each(func(n, k string, _ gostatsd.Gauge) { l = append(l, "g"+n+"\x00"+k) })
+	mm.Timers.Each(func(n, k string, _ gostatsd.Timer) { l = append(l, "t"+n+"\x00"+k) })
+	mm.Sets.Each(func(n, k string, _ gostatsd.Set) { l = append(l, "s"+n+"\x00"+k) })
+	sort.Strings(l)
+	return strings.Join(l, "\x01")
+}
+func fingerprint(shards []*gostatsd.MetricMap) string {
+	p := make([]string, len(shards))
+	for i, s := range shards {
+		p[i] = fingerprintOne(s)
+	}
+	return strings.Join(p, "\x02")
+}
+
+// fpAggr checks every map its worker hands it against the shards that may arrive there.
+type fpAggr struct {
+	id    int
+	allow map[string]bool // fingerprints of the non-empty shards [id] of the batches
+	mu    *sync.Mutex
+	count *int
+	bad   *[]string
+}
+
+func (a *fpAggr) ReceiveMap(mm *gostatsd.MetricMap) {
+	fp := fingerprintOne(mm)
+	a.mu.Lock()
+	*a.count++
+	if !a.allow[fp] && len(*a.bad) < 3 {
+		*a.bad = append(*a.bad, fmt.Sprintf("worker %d received a map that is not shard %d of any batch: %q", a.id, a.id, fp))
+	}
+	a.mu.Unlock()
+}
+func (a *fpAggr) Flush(time.Duration)        {}
+func (a *fpAggr) Process(statsd.ProcessFunc) {}
+func (a *fpAggr) Reset()                     {}
 
 // recAggr is an Aggregator that records the maps its worker hands it.  A paused aggregator
 // blocks in ReceiveMap until its gate is closed: its worker stops taking maps from its queue.
@@ -388,6 +437,152 @@ func runOne(em *hlib.Emitter, in input) {
 		c.Obs = map[string]int{"series": series, "rounds": nr}
 		c.Coq = hlib.App("SplitSeqCase", hlib.List(rounds))
 		c.Nontrivial = series >= 2 && nr >= 2
+	case "conc":
+		g, reps := in.G, in.Reps
+		if g < 1 {
+			g = 1
+		}
+		if runtime.GOMAXPROCS(0) < 4 {
+			runtime.GOMAXPROCS(4)
+		}
+		per := make([][]mmgen.Dp, g)
+		for j, d := range in.Dps {
+			per[j%g] = append(per[j%g], d)
+		}
+		maps := make([]*gostatsd.MetricMap, g)
+		ref := make([][]*gostatsd.MetricMap, g) // sequential results: compared with the model
+		refFP := make([]string, g)
+		series := 0
+		for b := range per {
+			maps[b] = mmgen.Build(per[b])
+			series += mmgen.Size(maps[b])
+			if msg := hlib.Recover(func() { ref[b] = maps[b].Split(in.N) }); msg != "" {
+				c.Monitors = append(c.Monitors, "Split panicked: "+msg)
+			}
+			refFP[b] = fingerprint(ref[b])
+		}
+		if len(c.Monitors) > 0 {
+			break
+		}
+		// small batches (a shrunk replay) get more repetitions: about 30000 Bucket calls per goroutine
+		biggest := 0
+		for b := range maps {
+			if sz := mmgen.Size(maps[b]); sz > biggest {
+				biggest = sz
+			}
+		}
+		if more := 30000 / (biggest + 1); more > reps {
+			reps = more
+		}
+		// the same calls again, from g goroutines at the same time, reps times each
+		var mu sync.Mutex
+		differs := make([][]*gostatsd.MetricMap, g) // first concurrent result that is not the sequential one
+		var wg sync.WaitGroup
+		start := make(chan struct{})
+		for b := 0; b < g; b++ {
+			b := b
+			wg.Add(1)
+			go func() {
+				defer wg.Done()
+				defer func() {
+					if x := recover(); x != nil {
+						mu.Lock()
+						c.Monitors = append(c.Monitors, fmt.Sprint("concurrent Split panicked: ", x))
+						mu.Unlock()
+					}
+				}()
+				<-start
+				for k := 0; k < reps; k++ {
+					sh := maps[b].Split(in.N)
+					if fingerprint(sh) != refFP[b] {
+						mu.Lock()
+						if differs[b] == nil {
+							differs[b] = sh
+							c.Monitors = append(c.Monitors, fmt.Sprintf("Split of batch %d, run concurrently with other Splits (repetition %d), routed series differently from the same call run alone", b, k))
+						}
+						mu.Unlock()
+						return
+					}
+				}
+			}()
+		}
+		close(start)
+		wg.Wait()
+		if in.Disp && len(c.Monitors) == 0 {
+			// g dispatchers on one handler at the same time
+			count := 0
+			var bad []string
+			next := 0
+			af := statsd.AggregatorFactoryFunc(func() statsd.Aggregator {
+				a := &fpAggr{id: next, allow: map[string]bool{}, mu: &mu, count: &count, bad: &bad}
+				for b := range ref {
+					if next < len(ref[b]) && !ref[b][next].IsEmpty() {
+						a.allow[fingerprintOne(ref[b][next])] = true
+					}
+				}
+				next++
+				return a
+			})
+			bh := statsd.NewBackendHandler(nil, 1, in.N, 4, af)
+			ctx, cancel := context.WithCancel(context.Background())
+			done := make(chan struct{})
+			go func() { bh.Run(ctx); close(done) }()
+			dreps := in.Reps/4 + 1
+			want := 0
+			for b := range ref {
+				for _, s := range ref[b] {
+					if !s.IsEmpty() {
+						want += dreps
+					}
+				}
+			}
+			var dwg sync.WaitGroup
+			for b := 0; b < g; b++ {
+				b := b
+				dwg.Add(1)
+				go func() {
+					defer dwg.Done()
+					for k := 0; k < dreps; k++ {
+						bh.DispatchMetricMap(context.Background(), maps[b])
+					}
+				}()
+			}
+			fin := make(chan struct{})
+			go func() { dwg.Wait(); close(fin) }()
+			select {
+			case <-fin:
+				cancel()
+				<-done
+			case <-time.After(30 * time.Second):
+				c.Monitors = append(c.Monitors, "concurrent DispatchMetricMap calls did not return")
+				_ = cancel
+			}
+			mu.Lock()
+			c.Monitors = append(c.Monitors, bad...)
+			if count != want && len(bad) == 0 {
+				c.Monitors = append(c.Monitors, fmt.Sprintf("workers received %d maps from concurrent dispatchers, %d non-empty shards were due", count, want))
+			}
+			mu.Unlock()
+		}
+		rounds := make([]string, g)
+		for b := range per {
+			shown := ref[b]
+			if differs[b] != nil {
+				shown = differs[b]
+			}
+			el := make([]string, len(shown))
+			for i, s := range shown {
+				el[i] = mmgen.Entries(s)
+			}
+			dps := make([]string, len(per[b]))
+			for i, d := range per[b] {
+				dps[i] = d.Coq()
+			}
+			rounds[b] = hlib.Pair(hlib.Pair(hlib.List(dps), hlib.Nat(in.N)), hlib.List(el))
+		}
+		c.Obs = map[string]int{"series": series, "goroutines": g, "reps": reps}
+		c.Coq = hlib.App("SplitSeqCase", hlib.List(rounds))
+		c.Nontrivial = series >= 2 && g >= 2 && in.N >= 2
 	case "tagged":
 		nb := in.Batches
 		if nb < 1 {
@@ -676,7 +871,34 @@ func genTagged(r *hlib.Rand) input {
 	return in
 }
 
+// genConc: several goroutines splitting / dispatching at the same time; many series with long
+// names and tags (the longer Bucket works on a key, the wider any window for interference)
+func genConc(r *hlib.Rand) input {
+	long := func(lo, hi int) string {
+		n := r.Range(lo, hi)
+		b := make([]byte, n)
+		for i := range b {
+			b[i] = "abcdefghijklmnopqrstuvwxyz0123456789._-"[r.Intn(39)]
+		}
+		return string(b)
+	}
+	u := mmgen.NewUniverse(r, 2, 2, 1)
+	for k := r.Range(6, 12); k > 0; k-- {
+		u.Names = append(u.Names, long(40, 200))
+	}
+	for k := r.Range(4, 8); k > 0; k-- {
+		u.Tags = append(u.Tags, long(20, 150)+":"+long(5, 60))
+	}
+	u.Sources = append(u.Sources, long(10, 40))
+	g := r.Range(3, 8)
+	return input{Kind: "conc", G: g, N: hlib.Pick(r, []int{2, 3, 4, 7, 8, 16, r.Range(2, 64)}), Reps: r.Range(150, 400),
+		Disp: r.Chance(1, 2), Dps: genDps(r, u, 8*g, 16*g)}
+}
+
 func gen(r *hlib.Rand, i int) input {
+	if i%32 == 6 {
+		return genConc(r)
+	}
 	switch i % 8 {
 	case 0: // tags key
 		u := universe(r, r.Bool())
